@@ -148,6 +148,18 @@ CHECKS["C05"] = (
     "DESIGN.md §3 C05",
 )
 
+CHECKS["C06"] = (
+    "exploration",
+    "history + executable reference model: the plain Python list/dict/set operation (ordered-unique list / key->item dict for keyed containers) applied to the abstract content before the call, compared with the attribute content after every element helper",
+    "Exhaustive part: every List[int] content over {0,1,2} up to length 3, every Set[int]/Set[str] subset of a 3-element universe "
+    "(falsy members included) and every Dict[str,int] over keys {'', 'a', 'b'} x every element helper x every addressing mode and "
+    "index in [-len-1, len+1] x in-place/copy. Random part: histories over generated classes with list/dict/set/KeyedList/KeyedSet "
+    "attributes of scalar, spec and keyed-spec elements. After each call the attribute content must equal the model (order included), "
+    "all other attributes must be untouched, a missing target must raise IndexError/KeyError/ValueError.",
+    "Trusted: the container model in checks/c06.py. UNSPECIFIED cases are counted, not judged.",
+    "DESIGN.md §3 C06",
+)
+
 NOT_YET = {}
 
 
